@@ -16,7 +16,12 @@ def run(chk):
         "decision callbacks (classifier, strategy, sleep handler, sleeper) do not raise ordinary exceptions; attempt_timeout_s=None",
         "object identity = index of the attempt that produced the object; tracebacks are checked by the driver only",
     ]
-    rc.run_runner_check(chk, "C04", "proj_C04", OPTS)
+    ok = chk.check_theorems()
+    rc.run_runner_check(chk, "C04", "proj_C04", OPTS, theorems_ok=ok)
+    if ok:
+        import source_tie
+        source_tie.report(chk, source_tie.loop_tie(chk), "loop",
+                          "scripted call sequences (random, abort sentinels and sweeps): no property violation found")
 
 
 def replay(path):
